@@ -78,6 +78,13 @@ def main():
     n = int(execs.group(1)) if execs else (int(done.group(1)) if done else 0)
     arts = sorted(glob.glob(artdir + "*"))
     violations = []
+    # out-of-memory, timeouts and leak reports are failures of the campaign, not verdicts about darling
+    resource = [a for a in arts if os.path.basename(a).startswith(("oom-", "timeout-", "leak-"))]
+    # (slow-unit-* files are informational: libFuzzer goes on; syn's expression parser is exponential on chains of `..-..-`)
+    arts = [a for a in arts if not os.path.basename(a).startswith("slow-unit-")]
+    if resource or ("libFuzzer: out-of-memory" in log) or ("libFuzzer: timeout" in log):
+        print("fuzz step %s: libFuzzer stopped on a resource limit (%s); inconclusive, not a violation\n%s" % (step, ", ".join(os.path.basename(a) for a in resource) or "see log", log[-1500:]), file=sys.stderr)
+        sys.exit(2)
     if r.returncode != 0 or arts:
         os.makedirs(replays, exist_ok=True)
         panic = re.search(r"panicked at [^\n]*\n([^\n]*)", log)
